@@ -1,5 +1,5 @@
 """Property -> rule instances (DESIGN section 4). Each entry is a function facts -> [RuleResult]."""
-from . import dim, atomic, tag, pair, canon, deleg, guard, table, wire, flow
+from . import dim, atomic, tag, pair, canon, deleg, guard, table, wire, flow, sibling
 
 ALGO_FILES = {
     "C09": ("src/algo/mod.rs",),
@@ -50,7 +50,7 @@ def dim_in_files(files, floor):
             return any(fm.get(fn, "-").startswith(f) for f in files)
         outs = []
         tot = 0
-        for k in ("DIM-HINT", "DIM-CARD", "DIM-RAW"):
+        for k in ("DIM-HINT", "DIM-CARD", "DIM-RAW", "DIM-RANGE"):
             r = _filter(allr[k], pred)
             tot += len(r.instances)
             outs.append(r)
@@ -308,6 +308,22 @@ PROPS["C14"]["decides"] += "; the inner graph's add_edge/update_edge is reached 
 PROPS["C18"]["rules"].append(sub(_flow_dot, lambda f, s: True, 5))
 PROPS["C18"]["decides"] += "; every user-formatted label (FnFmt) is wrapped in Escaped, the user closures are never called with the raw formatter, " \
                            "Escaped::fmt writes through an Escaper, edge statements print to_index(source) before to_index(target)"
+
+_sib = _cached("sibling", sibling.run)
+_diridx = _cached("diridx", sibling.diridx)
+_gm_lock = _cached("guard.graphmap", guard.graphmap_lockstep)
+_mx_order = _cached("guard.matrix_order", guard.matrix_order)
+for _pid in ("C01", "C02"):
+    PROPS[_pid]["rules"] += [sub(_sib, lambda f, s: True, 6), sub(_diridx, lambda f, s: True, 6)]
+    PROPS[_pid]["decides"] += "; Graph's and StableGraph's twin iterator implementations access next[i]/node[i] with the same constant indices " \
+                              "(sibling cross-check) and a list cursor next[i] is only advanced from a next[i] link with the same i"
+PROPS["C06"]["rules"].append(sub(_sib, lambda f, s: True, 6))
+PROPS["C06"]["decides"] += "; Graph/StableGraph neighbors_directed and iterator siblings agree on their direction-indexed accesses"
+PROPS["C03"]["rules"].append(sub(_gm_lock, lambda f, s: True, 7))
+PROPS["C03"]["decides"] += "; the edge map is never updated conditionally on an adjacency-list update; add_edge/remove_edge insert/remove the " \
+                           "Incoming mirror exactly under a != b"
+PROPS["C04"]["rules"].append(sub(_mx_order, lambda f, s: True, 2))
+PROPS["C04"]["decides"] += "; remove_node releases the node id only after the loop that clears its row and column"
 
 WITNESSES = {
     "C01": ["frozen_no_add_node", "graph_nodes_private"],
